@@ -291,7 +291,8 @@ PLANS['C18'] = {
              'and the two cfg hooks: before the table lock in new(), and between the last release and the table clean-up in Drop) and releases one thread at a time; '
              'EVERY schedule of every program set in the scopes under exhaustive_scopes is executed (DFS over release choices, replayable from the choice string); '
              'oracle at every quiescent point: handle bytes, ==/Hash, all live handles of equal content share one buffer address, no deadlock, table back to its initial size after all drops; '
-             'plus a 16-thread uncontrolled stress run with jitter injected at the hooks and the same oracle at barriers, ending with a unique-contents phase and a rendezvous phase (pairs of threads drop the last two handles of a unique string at the same instant) before the final table-size check; '
+             'plus a 16-thread uncontrolled stress run with jitter injected at the hooks and the same oracle at barriers, ending with phases whose contents never come back, so that an entry left behind cannot be healed by a later new(): unique contents, a sliding alphabet shared by all threads, rendezvous drops (pairs of threads '
+             'drop the last two handles of a unique string at the same instant) and ping-pong (the two threads of a pair run new()+drop of one content three times in step) before the final table-size check; '
              'non-trivial = schedule with >=2 scheduling decisions; distinct = (program set, choice string)'),
     'floor': {'quick': 20000, 'thorough': 300000},
     'exhaustive': {},
@@ -493,7 +494,7 @@ PLANS['C07'] = {
     'rule': ('each logical tree (generated, plus instances carrying several spellings of one logical property with different values) is built 6 ways (nested builders, chosen referents, shuffled '
              'property insertion order, reversed order + capacity, incremental inserts, flat insert + transfer_within) and serialized as binary x {lz4,none,zstd} and XML: all outputs byte-identical; '
              'the whole workload runs in P separate processes (other hash seeds; every other one runs the cases in the opposite order, so state kept between calls differs too) and their (case, format) -> output hashes are joined offline and must agree; '
-             'fault injection: after the first output of a case, saves are made to FAIL (sink refusing after k bytes, a tree the writer rejects) and the next save of the same tree must give the same bytes; '
+             'one case in eight uses a class for which the database records no defaults (the writer must invent the gap value); fault injection: after the first output of a case, saves are made to FAIL (sink refusing after k bytes, a tree the writer rejects) and the next save of the same tree must give the same bytes; '
              'fixed point: b2 = save(load(b1)), b3 = save(load(b2)) must be byte-identical; non-trivial = tree with >=3 nodes or >=2 properties; distinct = digest of the tree shape'),
     'floor': {'quick': 1500, 'thorough': 30000},
     'assumptions': ['process-level hash-seed diversity comes from ahash runtime keys: P processes sample P seeds, not all'],
@@ -585,7 +586,7 @@ PLANS['C15'] = {
     'rule': ('every Migrate descriptor of the database (found by an independent walk; 12 at the pinned version) on subclasses of its owner, for every legacy value (all items of the property\'s enum in the database, '
              'all valid BrickColor numbers, both booleans, a pool of URIs incl. empty; quick tier: every 5th value, all descriptors and paths), with and without an explicit value for the new property: '
              'path w-bin / w-xml: DOM with the legacy name through the real writer and reader; path r-bin / r-xml: files that contain the legacy PROP chunk / element (built by refbin.py / plain text, both '
-             'chunk / element orders) through the real reader. On the write paths the instance under test stands in four positions of one file (alone; first and second child of a same-class parent that carries both '
+             'chunk / element orders, and once more behind another class that carries the target property explicitly) through the real reader. On the write paths the instance under test stands in four positions of one file (alone; first and second child of a same-class parent that carries both '
              'spellings; first child of a parent carrying only the legacy one) and must decode identically in all of them. All four paths must produce the same new canonical property with equal value, never the legacy name, the explicit value must win, and no path may fail. '
              'non-trivial = every case; distinct = (class, legacy property, value, presence)'),
     'floor': {'quick': 300, 'thorough': 3000},
